@@ -135,11 +135,32 @@ def plan(ctx):
     for p, s in PROXIES:
         ops.append("redact proxyerr proxy=%s secret=%s" % (hx(p), hx(s)))
     argv = [gen_argv(rng) for _ in range(len(SPELLINGS) * (3 if tier == "quick" else 60))]
+    # everything the real Processor logs (debug level) during lifecycle histories - connect verdicts of every kind, restarts,
+    # harvest failures - with 40-character license keys: the full key must never be in it
+    from checks import gen_proc
+    import re as _re
+    hist = []
+    for i in range(25 if tier == "quick" else 800):
+        h = (gen_proc.lifecycle_history if i % 2 else gen_proc.history)(rng)
+        out = []
+        for o in h:
+            if o.startswith("proc init"):
+                o += " log=1"
+            elif o.startswith("proc defapp"):
+                o = _re.sub(r" lic=(\S+)", lambda m: " lic=" + m.group(1) + "0123456789abcdef0123456789abcdef0123", o)
+            elif o.startswith(("proc state", "proc cleanexit")):
+                out.append("proc logscan")
+            out.append(o)
+        out.append("proc logscan")
+        hist.append(("plog%d" % i, out))
     return [("corpus", corpus(ID)), ("redact", [("redact%d" % i, ops[i:i + 40]) for i in range(0, len(ops), 40)]),
-            ("argv", [("argv%d" % i, argv[i:i + 12]) for i in range(0, len(argv), 12)])]
+            ("argv", [("argv%d" % i, argv[i:i + 12]) for i in range(0, len(argv), 12)]), ("proclog", hist)]
 
 
 def run(ctx, bname, seqs):
+    if bname == "proclog" or (seqs and seqs[0][1] and seqs[0][1][0].startswith("proc ")):
+        from checks import proc_common as pc
+        return pc.run_proc(ctx, bname, seqs, ("C14",))
     harness, proc = [], []
     for name, ops in seqs:
         (proc if ops and ops[0].startswith("argv") else harness).append((name, ops))
